@@ -88,9 +88,9 @@ Lemma joseph_expand (K : 'M[F]_(n, m)) :
   joseph K = P - K *m H *m P - P *m H^T *m K^T + K *m S *m K^T.
 Proof.
 rewrite /joseph /innov_cov trmx_sub trmx1 trmx_mul.
-rewrite mulmxBl mul1mx mulmxBr mulmx1 mulmxBr mulmx1.
-rewrite (mulmxDr K) (mulmxDl _ _ K^T) !mulmxA.
-by rewrite opprB addrA [in LHS]addrA.
+rewrite mulmxBl mul1mx mulmxBr mulmx1 mulmxBl.
+rewrite (mulmxDr K) (mulmxDl _ _ K^T) !mulmxA opprB !addrA.
+by congr (_ + _); rewrite addrAC.
 Qed.
 
 (** Any K solving the normal equation K S = P H^T collapses the Joseph form. *)
@@ -136,25 +136,171 @@ Lemma cond_cov_schur :
 Proof. by rewrite /cond_cov /schur_compl /gain !mulmxA. Qed.
 
 (** information form *)
+Lemma gain_HPHt :
+  gain P H R *m H *m P *m H^T = P *m H^T - gain P H R *m R.
+Proof. by rewrite -gain_normal_eq /innov_cov mulmxDr !mulmxA addrK. Qed.
+
 Lemma cond_cov_info : P \in unitmx -> R \in unitmx ->
   cond_cov P H R *m info_mx P H R = 1%:M.
 Proof.
 move=> uP uR; rewrite /cond_cov /info_mx.
-have KS := gain_normal_eq; set K := gain P H R in KS *.
-have KHPHt : K *m H *m P *m H^T = P *m H^T - K *m R.
-  by rewrite -KS /innov_cov mulmxDr !mulmxA addrK.
-rewrite mulmxDr mulmxBl mulmxV // mulmxBl -!mulmxA (mulmxA P (invmx P)) mulmxV //.
-rewrite mul1mx !mulmxA KHPHt mulmxBl -!mulmxA (mulmxA R) mulmxV // mul1mx.
-by rewrite !mulmxA opprB addrA [X in X + _]addrAC subrK addrAC subrK.
+rewrite mulmxDr mulmxBl mulmxV // mulmxBl (mulmxK uP).
+rewrite !mulmxA gain_HPHt mulmxBl (mulmxK uR) mulmxBl opprB.
+by rewrite [_ + (_ - _)]addrC subrK subrK.
 Qed.
 
-Lemma gain_info : P \in unitmx -> R \in unitmx ->
+Lemma gain_info : R \in unitmx ->
   gain P H R = cond_cov P H R *m H^T *m invmx R.
 Proof.
-move=> uP uR; rewrite /cond_cov.
-have KS := gain_normal_eq; set K := gain P H R in KS *.
-rewrite mulmxBl -!mulmxA (mulmxA P H^T) -KS /innov_cov mulmxDr !mulmxA.
-by rewrite -mulmxBl opprD addrA addrAC subrr sub0r opprK -mulmxA mulmxV // mulmx1.
+move=> uR; rewrite /cond_cov mulmxBl gain_HPHt opprB addrC subrK.
+by rewrite (mulmxK uR).
 Qed.
 
 End Joseph.
+
+(* ------------------------------------------------------------------ *)
+(** * Positive semidefiniteness (ordered field) *)
+Section Psd.
+Variable F : realFieldType.
+
+Lemma psd_add (n : nat) (A B : 'M[F]_n) : psd A -> psd B -> psd (A + B).
+Proof.
+move=> pA pB x; rewrite mulmxDr mulmxDl mxE.
+by rewrite addr_ge0 ?pA ?pB.
+Qed.
+
+Lemma psd_conj (n p : nat) (A : 'M[F]_n) (B : 'M[F]_(p, n)) :
+  psd A -> psd (B *m A *m B^T).
+Proof.
+move=> pA x; have := pA (B^T *m x).
+by rewrite trmx_mul trmxK !mulmxA.
+Qed.
+
+Lemma psd0 (n : nat) : psd (0 : 'M[F]_n).
+Proof. by move=> x; rewrite mulmx0 mul0mx mxE. Qed.
+
+Section Update.
+Variables n m : nat.
+Variables (P : 'M[F]_n) (H : 'M[F]_(m, n)) (R : 'M[F]_m).
+
+(** Joseph form is PSD for PSD P, R and ANY gain. *)
+Lemma joseph_psd (K : 'M[F]_(n, m)) : psd P -> psd R -> psd (joseph P H R K).
+Proof. by move=> pP pR; apply: psd_add; apply: psd_conj. Qed.
+
+Lemma innov_cov_psd : psd P -> psd R -> psd (innov_cov P H R).
+Proof. by move=> pP pR; apply: psd_add => //; apply: psd_conj. Qed.
+
+Lemma cond_cov_le_prior :
+  innov_cov P H R \in unitmx -> P^T = P -> R^T = R -> psd P -> psd R ->
+  loewner_le (cond_cov P H R) P.
+Proof.
+move=> uS sP sR pP pR; rewrite /loewner_le (prior_minus_post uS sP sR).
+exact/psd_conj/innov_cov_psd.
+Qed.
+
+End Update.
+End Psd.
+
+(* ------------------------------------------------------------------ *)
+(** * The generated [correct] (field-level statements) *)
+Section Correct.
+Variable F : fieldType.
+Variables n m : nat.
+Variable cholesky : 'M[F]_m -> 'M[F]_m.
+Variables (x : 'cV[F]_n) (P : 'M[F]_n) (z : 'cV[F]_m) (H : 'M[F]_(m, n)) (R : 'M[F]_m).
+
+Hypothesis sP : P^T = P.
+Hypothesis sR : R^T = R.
+Hypothesis cS : cholesky_spec cholesky (correct_S P H R).
+
+Local Notation S := (correct_S P H R).
+Local Notation L := (correct_L cholesky P H R).
+
+Lemma chol_LLt : L *m L^T = S.
+Proof. by case: cS => _ []. Qed.
+
+Lemma chol_unitL : L \in unitmx.
+Proof. by case: cS => _ []. Qed.
+
+Lemma chol_lower : is_lower L.
+Proof. by case: cS. Qed.
+
+Lemma chol_unitS : S \in unitmx.
+Proof. by rewrite -chol_LLt unitmx_mul unitmx_tr chol_unitL. Qed.
+
+Lemma innov_unit : innov_cov P H R \in unitmx.
+Proof. by rewrite -correct_S_eq chol_unitS. Qed.
+
+Lemma correct_K_gain : correct_K cholesky P H R = gain P H R.
+Proof.
+rewrite correct_K_raw chol_LLt correct_S_eq /gain !trmx_mul sP.
+by rewrite (invmx_sym (innov_cov_sym H sP sR)).
+Qed.
+
+Lemma correct_ret1_joseph :
+  correct_ret1 cholesky P H R = joseph P H R (correct_K cholesky P H R).
+Proof. by rewrite correct_ret1_eq correct_U_eq. Qed.
+
+(** (1) conditional mean and covariance *)
+Lemma correct_mean :
+  correct_ret0 cholesky x P z H R = cond_mean x P z H R.
+Proof. by rewrite correct_ret0_eq correct_K_gain. Qed.
+
+Lemma correct_cov :
+  correct_ret1 cholesky P H R = cond_cov P H R.
+Proof. by rewrite correct_ret1_joseph correct_K_gain (joseph_gain innov_unit). Qed.
+
+Theorem correct_mean_cov :
+  correct_ret0 cholesky x P z H R
+    = x + (P *m H^T *m invmx (H *m P *m H^T + R)) *m (z - H *m x)
+  /\ correct_ret1 cholesky P H R
+    = P - (P *m H^T *m invmx (H *m P *m H^T + R)) *m H *m P.
+Proof. by rewrite correct_mean correct_cov. Qed.
+
+(** (2a) symmetry *)
+Theorem post_symmetric : (correct_ret1 cholesky P H R)^T = correct_ret1 cholesky P H R.
+Proof. by rewrite correct_ret1_joseph; apply: joseph_sym. Qed.
+
+(** (3) information form *)
+Theorem information_form : P \in unitmx -> R \in unitmx ->
+  correct_ret1 cholesky P H R *m (invmx P + H^T *m invmx R *m H) = 1%:M.
+Proof. by move=> uP uR; rewrite correct_cov; apply: cond_cov_info innov_unit uP uR. Qed.
+
+Corollary information_form_inv : P \in unitmx -> R \in unitmx ->
+  correct_ret1 cholesky P H R = info_cov P H R
+  /\ info_mx P H R \in unitmx.
+Proof.
+move=> uP uR; have PI := information_form uP uR.
+have [uI _] := mulmx1_unit PI; have [_ uJ] := mulmx1_unit PI; split=> //.
+by rewrite /info_cov -[LHS]mulmx1 -(mulmxV uJ) mulmxA PI mul1mx.
+Qed.
+
+(** information-vector form of the mean *)
+Theorem information_mean : P \in unitmx -> R \in unitmx ->
+  info_mx P H R *m correct_ret0 cholesky x P z H R = info_vec x P z H R.
+Proof.
+move=> uP uR; have PI := information_form uP uR.
+have IP : info_mx P H R *m correct_ret1 cholesky P H R = 1%:M by apply/mulmx1C.
+rewrite correct_mean /cond_mean (gain_info innov_unit uR) -correct_cov.
+rewrite mulmxDr !mulmxA IP mul1mx /info_vec /info_mx mulmxDl.
+rewrite -addrA; congr (_ + _).
+by rewrite -(mulmxA _ H x) -mulmxDr addrCA subrr addr0.
+Qed.
+
+(** (4) whitened innovation *)
+Theorem innovation_whitened :
+  [/\ correct_ret2 cholesky x P z H R = invmx L *m correct_e x z H,
+      (correct_ret2 cholesky x P z H R)^T *m correct_ret2 cholesky x P z H R
+        = (correct_e x z H)^T *m invmx S *m correct_e x z H,
+      invmx L *m S *m (invmx L)^T = 1%:M
+    & is_lower L /\ L *m L^T = S].
+Proof.
+have uL := chol_unitL; split.
+- by rewrite correct_ret2_eq.
+- rewrite correct_ret2_eq correct_e_eq trmx_mul !mulmxA -chol_LLt.
+  by rewrite invmxM ?unitmx_tr // trmx_inv !mulmxA.
+- by rewrite -chol_LLt mulmxA (mulVmx uL) mul1mx trmx_inv mulmxV ?unitmx_tr.
+- by split; [apply: chol_lower | apply: chol_LLt].
+Qed.
+
+End Correct.
